@@ -180,18 +180,18 @@ prop(
     level_note="Trusts the puppet's /proc/self/fd snapshot taken before it opens anything. A second campaign starts children concurrently from 2-8 (thorough 24) threads on the thread engine (src/props/C20.cpp with only the descriptor/cross-talk oracle enabled): no child may hold a sibling's descriptor.",
     technique="property-based testing (rapidcheck tape) with real child processes; oracle = the child's own descriptor listing",
     rule=("limit from {16,20,24,32,64,100,256,1024,4096(,8192,20000)}; extras: none / 1-6 random / dense range of 1-40 / many (to 1000), plus limit-1 (p=2/3) and limit-2 (p=1/2); "
-          "kind and close-on-exec per descriptor; redirect plan random incl. shorthands and start-up input. Non-trivial: an inheritable (no close-on-exec) descriptor >= 3 existed, or the highest "
+          "kind and close-on-exec per descriptor; redirect plan random incl. shorthands and start-up input; 1-3 such starts in a row in the same process, each with its own limit (so the limit rises and falls between starts). Non-trivial: an inheritable (no close-on-exec) descriptor >= 3 existed, or the highest "
           "permitted number was open and inheritable. Distinct: hash of limit, descriptor numbers and the redirect plan."),
-    essential=dict(quick=["inheritable-extra-descriptor", "highest-permitted-descriptor-open", "hundreds-of-descriptors", "tiny-limit", "large-limit", "concurrent-starts"]),
+    essential=dict(quick=["inheritable-extra-descriptor", "highest-permitted-descriptor-open", "hundreds-of-descriptors", "tiny-limit", "large-limit", "concurrent-starts", "several-starts-in-one-process"]),
     assumptions=[
         "descriptors at or above the soft limit (possible only if the limit was lowered after opening them) are outside the property's 'up to the descriptor limit'",
         "the refusal branch for limits above 1 048 576 is reached by a getrlimit value fault in C04, not here",
     ],
 )
 
-FAULT_SCENARIOS = ("17 start scenarios that change the call sequence (default; all pipes nonblocking; all discard; paths + stderr->stdout; handle/FILE/handle; parent shorthand; "
+FAULT_SCENARIOS = ("18 start scenarios that change the call sequence (default; all pipes nonblocking; all discard; paths + stderr->stdout; handle/FILE/handle; parent shorthand; "
                    "start-up input; working directory + relative program; env empty + extras; env extend + extras; fork mode; file shorthand; parent stream absent; and four "
-                   "naturally failing ones: missing program, bad working directory, bad redirect path, non-executable file)")
+                   "naturally failing ones: missing program, bad working directory, bad redirect path, non-executable file, cwd beyond PATH_MAX with a relative program)")
 
 prop(
     "C04",
@@ -202,7 +202,7 @@ prop(
                # Windows half on engine W: every allocation and every Win32 call of process_start fails in turn
                dict(bin="C04win", sweep=True, random=dict(quick=2000, thorough=40000), workers=4)],
     level_text=("Every system/library call that reproc_start makes - in the parent and in the forked child before exec - is a fault point discovered from a fault-free run of each scenario; "
-                "quick enumerates every (scenario, fault point, first two applicable errnos) singly, thorough every applicable errno and pairs (second fault at each of the next 120 "
+                "quick enumerates every (scenario, fault point, first two applicable errnos) singly, thorough every applicable errno and pairs (second fault at each of the next 48 "
                 "fault points of the path actually taken under the first). Outcome-based oracle: failure => the errno of a real cause, no child left, handle restartable; success => "
                 "positive pid of the forked child and the program's own hello. Exhaustive over single fault points of the listed scenarios."),
     level_note=("Fault injection is at the libc boundary of the compiled library (objcopy-renamed symbols), NDEBUG flavour as shipped; errnos per call from the man pages (DESIGN 3.3); "
@@ -213,7 +213,7 @@ prop(
     essential=dict(quick=["fault-free", "single-fault", "start-failed", "start-succeeded-under-fault", "scenario:fork-mode", "scenario:missing-program", "win-alloc-fault", "win-api-fault"],
                    thorough=["fault-free", "single-fault", "fault-pair", "start-failed", "start-succeeded-under-fault"]),
     exhaustive=dict(quick=True, thorough=True),
-    exhaustive_scope="all single fault points (first two errnos each in quick, all in thorough) of the 17 scenarios on both sides of fork; pairs are bounded (next 120 points, one errno each)",
+    exhaustive_scope="all single fault points (first two errnos each in quick, all in thorough) of the 18 scenarios on both sides of fork; pairs are bounded (next 48 points, one errno each)",
     assumptions=[
         "RLIMIT_NOFILE is lowered to 64 during start so that the child's descriptor-closing loop stays short; its probing fcntl(F_GETFD) calls are not fault points",
         "faults inside libc (e.g. execvp's PATH walk) are injected at the execvp boundary only; clock_gettime is not injected",
@@ -237,7 +237,7 @@ prop(
           "Non-trivial: the parent blocked something and ignored or handled something, or a fault fired at or after the parent's mask change. Distinct: fault identities + parent state."),
     essential=dict(quick=["single-fault", "fault-free", "parent-blocks-and-handles", "fault-at-or-after-mask-change", "failed-start", "successful-start"]),
     exhaustive=dict(quick=True, thorough=True),
-    exhaustive_scope="all single fault points of the 17 scenarios on both sides of fork (parent signal state sampled per case)",
+    exhaustive_scope="all single fault points of the 18 scenarios on both sides of fork (parent signal state sampled per case)",
     assumptions=[
         "a fault injected into the restoring pthread_sigmask call itself is excluded by the property's wording",
         "called from the main thread; the thread-local nature of the mask is covered by C20's engine",
